@@ -1701,6 +1701,40 @@ impl<'a, 'd> Gen<'a, 'd> {
 }
 
 /// Generate a legal project from the choice bytes.
+/// Text-level addition to a rendered legal project: one package that Main imports gets an `extern "go"`
+/// function, and `main` calls it through the package path (`Lib::ext_up("a")`): exported names of every
+/// kind are visible to importers. Returns false when the project has no such package.
+pub fn add_cross_package_extern(files: &mut Vec<(String, String)>) -> bool {
+    let Some(mi) = files.iter().position(|(p, _)| p == "main.gom") else { return false };
+    let imports: Vec<String> = files[mi]
+        .1
+        .lines()
+        .filter_map(|l| l.trim().strip_prefix("import "))
+        .map(|r| r.trim().to_string())
+        .collect();
+    for pkg in imports {
+        let prefix = format!("{pkg}/");
+        let Some(li) = files.iter().position(|(p, t)| p.starts_with(&prefix) && t.starts_with(&format!("package {pkg}\n"))) else { continue };
+        if files[li].1.contains("ext_up") {
+            continue;
+        }
+        let lines: Vec<String> = files[mi].1.lines().map(|l| l.to_string()).collect();
+        let Some(ml) = lines.iter().position(|l| l.starts_with("fn main(") && l.trim_end().ends_with('{')) else { return false };
+        files[li].1.push_str("\nextern \"go\" \"strings\" \"ToUpper\" ext_up(s: string) -> string\n");
+        let mut out = String::new();
+        for (i, l) in lines.iter().enumerate() {
+            out.push_str(l);
+            out.push('\n');
+            if i == ml {
+                out.push_str(&format!("    let _ = {pkg}::ext_up(\"a\");\n"));
+            }
+        }
+        files[mi].1 = out;
+        return true;
+    }
+    false
+}
+
 pub fn gen_project(d: &mut Dec, ctx: &mut Ctx) -> Project {
     gen_project_sized(d, ctx, 0, 4)
 }
